@@ -141,8 +141,8 @@ def det_params(name, rng):
     return p
 
 
-def valid_history(name, rng, params):
-    """list of (method, 2-d float array or (y_true, y_pred))"""
+def valid_history(name, rng, params, allow_1d=False):
+    """list of (method, 2-d float array or (y_true, y_pred)); allow_1d: batch detectors may also get one-column data"""
     k = zoo.kind(name)
     if k == "y":
         items = zoo.workload(name, rng, params, length=int(rng.integers(40, 120)))
@@ -158,6 +158,8 @@ def valid_history(name, rng, params):
         items = zoo.workload(name, rng, params, d=d, length=(6 * params["window_size"] + 10) if name == "PCACD" else None)
         return [("update", np.asarray(v).reshape(1, -1)) for v in items[:260]], d
     d = 1 if name == "CDBD" else int(rng.integers(2, 4))
+    if allow_1d and rng.random() < 0.45:
+        d = 1
     items = zoo.workload(name, rng, params, d=d, length=int(rng.integers(8, 22)))
     calls = []
     for i, b in enumerate(items):
